@@ -143,8 +143,16 @@ def run_check(prop, rules, tier, model, repo, explanation, assumptions, seed=0, 
                        'violations': [{'rule': o.rule, 'key': o.key, 'where': o.where, 'detail': o.detail,
                                        'rule_text': chk.rules_doc.get(o.rule, '')}
                                       for o in violations]}, f, indent=1)
+        shown = {}
         for o in violations:
-            print('  %s %s @ %s: %s' % (o.rule, o.key, o.where, o.detail))
+            shown[(o.rule, o.key)] = shown.get((o.rule, o.key), 0) + 1
+        done = set()
+        for o in violations:
+            if (o.rule, o.key) in done:
+                continue
+            done.add((o.rule, o.key))
+            cnt = shown[(o.rule, o.key)]
+            print('  %s %s @ %s: %s%s' % (o.rule, o.key, o.where, o.detail, ' [x%d]' % cnt if cnt > 1 else ''))
             if o.rule in chk.rules_doc:
                 print('      rule: %s' % chk.rules_doc[o.rule])
         if status == 1:
